@@ -51,6 +51,14 @@ func VfC14_Dispatch() {
 	_, found := p.findHandler(string(name))
 	supported := vfRefForwarded[lower] || vfRefLocal[lower]
 	nd.Assert(found == supported, "a handler exists exactly for the reference supported commands, in any letter case")
+	if !found && len(name) > 3 {
+		// the reply for an unsupported name does not depend on the name's bytes beyond the
+		// look-up above; it is executed for names of up to 3 arbitrary bytes here and for the 85
+		// documented names in C14.a/known-unsupported (the sanitising loop of the error text forks
+		// per byte, C01.a covers its content)
+		nd.Cover("unsupported-name")
+		return
+	}
 	if !found {
 		p.handleRequest(raw)
 		nd.Assert(vfDone(raw.done) && raw.Response().Type == Error && vfHasPrefix(raw.Response().Text, "ERR unsupported command"),
